@@ -27,7 +27,7 @@ import walk_C03 as W
 
 EXPECTED_ACTS = {
     "Make", "Slice", "Index", "Stride", "Rc", "TakePositions", "TakeSeqs", "OmitGapPos", "NoDegenerates",
-    "Filtered", "DegapRel", "SampleRepl", "SamplePerm", "Concat", "ToType", "ToRna", "ToDna", "Degap", "DeepCopy",
+    "Filtered", "DegapRel", "SampleRepl", "SamplePerm", "Concat", "ConcatSlices", "ToType", "ToRna", "ToDna", "Degap", "DeepCopy",
 }
 
 # per TLC run: cfg and the walk policy of a root, chosen by (picked?, molecule):
@@ -35,8 +35,9 @@ EXPECTED_ACTS = {
 #   sample_k    labels sampled per node at level full_depth (1 per node below that)
 #   max_depth   longest history walked (only while TLC expanded the state)
 #   p_ro        share of visited results whose read-only methods are compared with a new object
-def _pol(full_depth, sample_k, max_depth, p_ro):
-    return dict(full_depth=full_depth, sample_k=sample_k, max_depth=max_depth, p_ro=p_ro)
+#   cs_cap      at most this many ConcatSlices labels per node (None = all the cfg's PairFamily offers)
+def _pol(full_depth, sample_k, max_depth, p_ro, cs_cap=None):
+    return dict(full_depth=full_depth, sample_k=sample_k, max_depth=max_depth, p_ro=p_ro, cs_cap=cs_cap)
 
 
 PLANS = {
@@ -46,7 +47,8 @@ PLANS = {
     "thorough": [
         ("MC_Alignment_thorough.cfg", {"all": _pol(1, 2, 3, 0.05), "picked": _pol(2, 0, 2, 0.05), "picked:protein": _pol(1, 6, 3, 0.05)}),
         ("MC_Alignment_thorough_wide.cfg", {"all": _pol(1, 0, 1, 0.05), "picked": _pol(1, 0, 1, 0.05)}),
-        ("MC_Alignment_thorough_deep.cfg", {"all": _pol(1, 2, 5, 0.05), "picked": _pol(2, 1, 5, 0.03)}),
+        # PairFamily = "all" here: every pair of slices of one object; a seeded 40 of them per node
+        ("MC_Alignment_thorough_deep.cfg", {"all": _pol(1, 2, 5, 0.05, 40), "picked": _pol(2, 1, 5, 0.03, 40)}),
     ],
 }
 
